@@ -260,6 +260,7 @@ structure Ind (f : Nat) : Prop where
   structInit1 : ∀ ms toks c1 c2, Sm c1 c2 → SmR (structInit1 f ms toks c1) (structInit1 f ms toks c2)
   structInit2 : ∀ ms toks c1 c2 mem first, Sm c1 c2 →
     SmR (structInit2 f ms toks c1 mem first) (structInit2 f ms toks c2 mem first)
+  unionRest : ∀ ms toks c1 c2, Sm c1 c2 → c1.mem? = c2.mem? → SmR (unionRest f ms toks c1) (unionRest f ms toks c2)
   unionInit : ∀ ms toks c1 c2, Sm c1 c2 → SmR (unionInit f ms toks c1) (unionInit f ms toks c2)
   initializer2 : ∀ ty toks c1 c2, Sm c1 c2 → SmR (initializer2 f ty toks c1) (initializer2 f ty toks c2)
 
@@ -273,6 +274,7 @@ theorem ind_zero : Ind 0 where
   structInit1Loop := fun _ _ _ _ _ _ _ => rfl
   structInit1 := fun _ _ _ _ _ => rfl
   structInit2 := fun _ _ _ _ _ _ _ => rfl
+  unionRest := fun _ _ _ _ _ _ => rfl
   unionInit := fun _ _ _ _ _ => rfl
   initializer2 := fun _ _ _ _ _ => rfl
 
@@ -297,8 +299,14 @@ macro "sm_tree" : tactic => `(tactic| repeat' first
   | apply Sm.setExpr
   | apply Sm.setMem)
 
+/-- after `init->mem = mem` both nodes name the same member (trees of one skeleton are nodes of one kind) -/
+theorem mem?_setMem_setChild {a b : Init} (h : Sm a b) (k j : Nat) (x y : Init) :
+    ((a.setMem k).setChild j x).mem? = ((b.setMem k).setChild j y).mem? := by
+  cases a <;> cases b <;> first | rfl | (simp [Sm, erase] at h)
+
 macro "sm_step" ih:ident : tactic => `(tactic| repeat' first
   | exact SmR.refl _
+  | (apply ($ih).unionRest <;> first | (sm_tree; done) | (apply mem?_setMem_setChild; sm_tree; done))
   | (apply SmR.pure; sm_tree; done)
   | (apply SmR.ok; sm_tree; done)
   | (apply ($ih).designation; sm_tree; done)
@@ -443,6 +451,28 @@ theorem ind_unionInit {f : Nat} (ih : Ind f) (ms : Members) (toks : List ITok) (
     · intro _
       split <;> sm_step ih
 
+theorem ind_unionRest {f : Nat} (ih : Ind f) (ms : Members) (toks : List ITok) (c1 c2 : Init) (h : Sm c1 c2) (hm : c1.mem? = c2.mem?) :
+    SmR (unionRest (f+1) ms toks c1) (unionRest (f+1) ms toks c2) := by
+  simp only [unionRest]
+  split
+  · exact SmR.ok h
+  · apply SmR.bind_same
+    intro toks1
+    split
+    · apply SmR.bind_same
+      intro ka
+      apply SmR.bind_same
+      intro mty
+      rw [hm]
+      by_cases hc : c2.mem? = some ka.1
+      · simp only [hc, ↓reduceIte]
+        sm_step ih
+      · simp only [hc, ↓reduceIte]
+        sm_step ih
+    · apply SmR.bind_same
+      intro toks2
+      exact ih.unionRest _ _ _ _ h hm
+
 theorem ind_initializer2 {f : Nat} (ih : Ind f) (ty : Ty) (toks : List ITok) (c1 c2 : Init) (h : Sm c1 c2) :
     SmR (initializer2 (f+1) ty toks c1) (initializer2 (f+1) ty toks c2) := by
   simp only [initializer2]
@@ -561,6 +591,7 @@ theorem ind_succ (f : Nat) (ih : Ind f) : Ind (f+1) where
   structInit1Loop := ind_structInit1Loop ih
   structInit1 := ind_structInit1 ih
   structInit2 := ind_structInit2 ih
+  unionRest := ind_unionRest ih
   unionInit := ind_unionInit ih
   initializer2 := ind_initializer2 ih
 
